@@ -297,6 +297,25 @@ fn check_roundtrip(r: &RefSpec, with_specfile: bool) -> Result<(), (String, Stri
             }
         }
     }
+    // with a text filter: the text forms may or may not carry it, but what they produce must still
+    // parse back and decide identically (the filter aside) - also for a regex with slashes
+    if r.modules.len() <= 1 {
+        for re in ["x", "^y$", r"src/main\.rs", "^/var/log/"] {
+            let mut r2 = r.clone();
+            r2.regex = Some(re.to_string());
+            let text = r2.build().to_string();
+            match LogSpecification::parse(&text) {
+                Ok(back) => {
+                    if grid_of(&back, &TARGETS) != want {
+                        return Err(("roundtrip-display".into(), format!("{shape}/with-text-filter"), format!("`{}` with text filter {re:?} --Display--> {text:?} --parse--> `{back}` decides differently", r.text())));
+                    }
+                }
+                Err(e) => {
+                    return Err(("roundtrip-display".into(), format!("{shape}/with-text-filter"), format!("`{}` with text filter {re:?} --Display--> {text:?} is rejected by parse: {e}", r.text())));
+                }
+            }
+        }
+    }
     if with_specfile {
         // first start writes the file, second start (with another initial spec) reads it back
         let sc = crate::scratch::Scratch::new("c17");
@@ -385,6 +404,8 @@ fn special_inputs() -> Vec<String> {
         }
     }
     v.extend(["", "=", "==", "=info", "a=", "a==", "info,info", "a=info,a=warn", "/", "//", "info/", "/x", "a=info/x(", "DEBUG", "a=TrAcE", " a = info , b ", "a b=info", "a=in fo"].map(String::from));
+    // characters whose upper / lower case forms are ASCII letters: not level words
+    v.extend(["\u{131}nfo", "o\u{fb00}", "a=\u{131}nfo", "a = o\u{fb00}", "warn, \u{131}nfo", "\u{131}nfo, a=warn", "a=\u{fb00}", "a=\u{17f}ilent", "\u{212a}=info", "\u{130}nfo", "a=\u{130}nfo"].map(String::from));
     v
 }
 
